@@ -439,6 +439,28 @@ impl Plan {
             1 => Some(mac),
             _ => Some(rand_mac(rng)),
         };
+        // the host's own addresses on that interface: none, some address the peers talk to (handled
+        // or not), an unrelated one; flags as a running Ethernet interface / none / loopback-like
+        let mut iface_ips = Vec::new();
+        let mut iface_flags = 0u32;
+        // addresses the peers of this run talk to (handled ones, and - with a list - foreign ones)
+        let mut node_ips: Vec<IpAddr> = t4.iter().map(|a| IpAddr::V4(*a)).collect();
+        node_ips.extend(t6.iter().map(|a| IpAddr::V6(*a)));
+        node_ips.extend(f4.iter().map(|a| IpAddr::V4(*a)));
+        node_ips.extend(f6.iter().take(1).map(|a| IpAddr::V6(*a)));
+        if iface.is_some() && rng.chance(2, 3) {
+            if rng.chance(3, 4) {
+                iface_ips.push(*rng.pick(&node_ips));
+            }
+            if rng.chance(1, 2) {
+                iface_ips.push(*rng.pick(&node_ips));
+            }
+            if rng.chance(1, 3) {
+                iface_ips.push(if rng.chance(1, 2) { IpAddr::V4(Ipv4Addr::new(172, 16, 5, rng.range(1, 255) as u8)) } else { IpAddr::V6(Ipv6Addr::new(0xfe80, 0, 0, 0, 0x200, 0xff, 0xfe00, rng.u16())) });
+            }
+            iface_ips.dedup();
+            iface_flags = *rng.pick(&[0x1043u32, 0x1043, 0x11043, 0, 0x49, 0x1002]);
+        }
         let cfg = Config {
             mac,
             key,
@@ -448,6 +470,8 @@ impl Plan {
             level,
             build,
             iface,
+            iface_ips,
+            iface_flags,
         };
         // faults: swarm - each kind enabled independently, some runs fault-free
         let mut faults = FaultCfg::default();
